@@ -419,6 +419,7 @@ func (im *impl) exec(w []string) string {
 // runImpl executes a case (first op `new <backend> <nodeCap> <valCap>`) on the real tree.
 func runImpl(ops []string) (lines []string, panicked string) {
 	var im *impl
+	var cx *ctxImpl
 	defer func() { im.close() }()
 	for _, op := range ops {
 		w := strings.Fields(op)
@@ -436,6 +437,28 @@ func runImpl(ops []string) (lines []string, panicked string) {
 					line = op + " PANIC:" + strings.ReplaceAll(clip(fmt.Sprint(r)), " ", "_")
 				}
 			}()
+			if w[0] == "newctx" {
+				im.close()
+				im = nil
+				if cx != nil && len(cx.ctxs) > 0 {
+					func() {
+						defer func() { _ = recover() }()
+						for i := len(cx.ctxs) - 1; i >= 0; i-- {
+							cx.ctxs[i].c.Close()
+						}
+					}()
+				}
+				cx = newCtxImpl(w[1])
+				line = "new"
+				return
+			}
+			if isCtxOp(w[0]) {
+				if cx == nil {
+					cx = newCtxImpl("delivertx")
+				}
+				line = cx.exec(w)
+				return
+			}
 			if w[0] == "new" {
 				im.close()
 				backend, nc, vc := "mem", 0, 0
@@ -752,6 +775,12 @@ func withCaps(ops []string, mode string) []string {
 // caches are made unlimited is an instance of "eviction changes an answer" (C03) and is
 // attributed to the value cache if it persists with an unlimited node cache.
 func refine(ops []string, d string) string {
+	if len(ops) > 0 && strings.HasPrefix(ops[0], "newctx") {
+		if strings.Contains(d, "PANIC") {
+			return "ctx-panic"
+		}
+		return "ctx-overlay-stack-divergence"
+	}
 	base := signature(d)
 	if strings.Contains(d, "model-error") {
 		return base
@@ -771,6 +800,7 @@ func main() {
 	nops := flag.Int("ops", 40, "ops per case")
 	specCases := flag.Int("spec", 100, "number of specification-on-implementation cases")
 	focus := flag.String("focus", "c03", "c02 | c03 | c13")
+	ctxCases := flag.Int("ctx", 0, "number of generated api.Context histories (C03)")
 	flag.IntVar(&minCap, "mincap", 1, "smallest node cache capacity generated")
 	flag.IntVar(&minValCap, "minvalcap", 1, "smallest value cache capacity (bytes) generated")
 	out := flag.String("out", "-", "result file")
@@ -900,6 +930,26 @@ func main() {
 		}
 		if len(res.Failures) >= 6 {
 			break
+		}
+	}
+	for i := 0; i < *ctxCases && len(res.Failures) < 8; i++ {
+		cr := rng.Fork()
+		cs := cr.Seed()
+		ops := genCtxCase(cr, 5+cr.Intn(*nops), res)
+		key := strings.Join(ops, ";")
+		d, lines := check(ops)
+		if i < 1 {
+			res.AddSample(lines)
+		}
+		if d != "" {
+			runOne(ops, cs, true)
+			continue
+		}
+		res.Cases++
+		res.Ops += len(lines)
+		if !seen[key] {
+			seen[key] = true
+			res.Distinct++
 		}
 	}
 	runSpec(rng, *specCases, *focus, res)
